@@ -33,10 +33,10 @@ claimed={
    text="For 24 scenarios (8 histories x 3 delivery modes) all schedules of reader, writer and terminal within 2 (thorough 3) deviations are executed on the real connection code; every Message kept from a read callback is compared with its snapshot at every later callback and at quiescence, replies and reassembled bodies with the reference computed from the snapshots.",
    note="Same trusted base as C06."),
  "C10": dict(level="model_checking", engine="vsched", design="7 C10", technique=E1+" over a hostile-input menu with disconnect/reset injection; exhaustive scripted sessions for the attachment connection",
-   text="A well-behaved session, a hostile client and a later third client run against the real JT808 server with handlers that parse and render every body; the hostile client plays every piece of a ~230-piece menu (lying package fields, every supported ID with empty/short/truncated/corrupted/extended bodies, C03's boundary bodies, framing noise) with close/reset at every chunk boundary under all schedules with <=1 (thorough 2) deviation, and every ordered pair of a sub-menu. The attachment connection loop is run on every prefix (EOF/reset, also mid-chunk) of well-formed sessions of all five dialects and on adversarial control frames/chunk headers, with the default and a custom file handler. No goroutine may panic, the victim must get exactly its reference replies, the later client must be served.",
+   text="A well-behaved session, a hostile client and a later third client run against the real JT808 server with handlers that parse and render every body; the hostile client plays every piece of a ~900-piece menu (lying package fields, every supported ID with empty/short/truncated/corrupted/extended bodies, C03's boundary bodies, framing noise) with close/reset at every chunk boundary under all schedules with <=1 (thorough 2) deviation, and every ordered pair of a sub-menu. The attachment connection loop is run on every prefix (EOF/reset, also mid-chunk) of well-formed sessions of all five dialects and on adversarial control frames/chunk headers, with the default and a custom file handler. No goroutine may panic, the victim must get exactly its reference replies, the later client must be served.",
    note="Memory exhaustion by an endless delimiter-free stream is not claimed (resource bound, not a reachable-state property)."),
  "C11": dict(level="model_checking", engine="vsched", design="7 C11", technique=E1+"; each execution's join/leave/route history checked for linearizability with porcupine",
-   text="8 (thorough 10) registry skeletons (duplicate-key connect after/racing the owner's join, close then reconnect, close racing a duplicate, two keys, commands racing / following a leave, absent key) are executed under all schedules within 2 (thorough 3) deviations on the real sessionManager and connection code; the call/return history of join, leave and command routing is checked against a sequential key->connection map with porcupine, refused sockets must be closed, callbacks are counted and the owner's traffic must stay answered.",
+   text="10 (thorough 12) registry skeletons (duplicate-key connect after/racing the owner's join, close then reconnect, close racing a duplicate, two keys, commands racing / following a leave, absent key) are executed under all schedules within 2 (thorough 3) deviations on the real sessionManager and connection code; the call/return history of join, leave and command routing is checked against a sequential key->connection map with porcupine, refused sockets must be closed, callbacks are counted and the owner's traffic must stay answered.",
    note="Operation intervals are derived from callbacks and enlarged where the call instant is not observable (sound). Commands whose caller never returns belong to C13."),
  "C12": dict(level="model_checking", engine="vsched", design="7 C12", technique=E1,
    text="1..2 (thorough 3) concurrent SendActiveMessage callers, one or two scripted terminals with 7 response behaviours (in order, reverse, only the second, duplicated, unknown serial, never, late), heartbeat/location noise and an absent key; every schedule within 2 (thorough 3) deviations, timers being scheduler events. Each caller must get exactly the response echoing its own frame's serial or a timeout; its frame must be on its terminal's socket exactly once with a fresh serial; noise must still be answered.",
